@@ -5,7 +5,9 @@ EXTENDS SerdeAttrs, TLC, Json, IOUtils
 Rec == ndJsonDeserialize(IOEnv.TRACE)
 VARIABLES i, bad
 \* Scala output carries no key binding, so for Scala only keys without '-' are in scope (property text)
-Ok(e) == LET w == FieldWire(e.ident, e.rename, e.rule) IN
+\* e.rule: the rename_all of the field's own container (struct / variant); e.fields_rule: the enum's rename_all_fields ("none" for structs)
+Rule(e) == RuleForField([kind |-> e.kind, rename_all |-> e.rule, variant_rename_all |-> e.rule, enum_rename_all_fields |-> e.fields_rule])
+Ok(e) == LET w == FieldWire(e.ident, e.rename, Rule(e)) IN
     (e.lang = "scala" /\ "-" \in Range(w)) \/ e.key = w
 Init == i = 1 /\ bad = <<>>
 Next == /\ i <= Len(Rec)
